@@ -4,6 +4,7 @@ import (
 	"math/rand"
 	"os"
 	"path/filepath"
+	"regexp"
 	"strings"
 	"sync"
 )
@@ -199,6 +200,20 @@ func SwapPunct(r *rand.Rand, src []byte) []byte {
 		return splice(src, p, p+1, []byte{partner[src[p]]})
 	}
 	return splice(src, p, p+1, []byte{":=,;{}[]()"[r.Intn(10)]})
+}
+
+var keywordRe = regexp.MustCompile(`\b(in|if|for|else|endif|endfor|true|false|null)\b`)
+
+// SwapKeyword replaces one keyword occurrence by another word (a misspelt or
+// misplaced keyword: "of" for "in", "elsif" for "else", ...).
+func SwapKeyword(r *rand.Rand, src []byte) []byte {
+	locs := keywordRe.FindAllIndex(src, -1)
+	if len(locs) == 0 {
+		return src
+	}
+	l := Pick(r, locs)
+	w := Pick(r, []string{"of", "on", "in", "if", "iff", "fro", "for", "else", "elsif", "endif", "endfor", "end", "nul", "x", ":", "=>", ""})
+	return splice(src, l[0], l[1], []byte(w))
 }
 
 func splice(b []byte, p, q int, ins []byte) []byte {
